@@ -32,6 +32,9 @@ type Case struct {
 	Prefix []hx.Op  `json:"prefix"`
 	Target Target   `json:"target"`
 	Masks  []uint16 `json:"masks"` // subsets of directory entries already removed when RemoveAll is interrupted
+	// Cap2, when > 0, is the cap the server was restarted with before the target operation (a
+	// lowered or newly enabled cap): the target's mailbox may then hold more than the cap.
+	Cap2 int `json:"cap2,omitempty"`
 }
 
 var prefixKinds = []string{"add", "add", "add", "add", "add", "seen", "remove", "purge"}
@@ -63,6 +66,13 @@ var prop = hx.Prop[Case]{
 		c.Target = Target{K: rapid.SampledFrom([]string{"add", "add", "seen", "remove", "remove", "purge"}).Draw(t, "tk"),
 			Box: rapid.IntRange(0, 7).Draw(t, "tbox"), N: rapid.IntRange(0, 20).Draw(t, "tn"), Big: rapid.Bool().Draw(t, "big")}
 		c.Masks = rapid.SliceOfN(rapid.Uint16(), 3, 3).Draw(t, "masks")
+		if c.Target.K == "add" && rapid.IntRange(0, 3).Draw(t, "recap") == 0 {
+			c.Cap2 = rapid.SampledFrom([]int{1, 2}).Draw(t, "cap2")
+			// some mail in the target mailbox, so that the lowered cap finds a backlog
+			for i := 0; i < 3; i++ {
+				c.Prefix = append(c.Prefix, hx.Op{K: "add", Box: c.Target.Box, Msg: mg.Draw(t, "backlog")})
+			}
+		}
 		if c.Cap > 0 && c.Target.K == "add" && rapid.IntRange(0, 2).Draw(t, "fill") > 0 {
 			// fill the target mailbox to its cap so that the delivery has to evict
 			for i := 0; i < c.Cap; i++ {
@@ -193,9 +203,18 @@ func run(c Case) *hx.Outcome {
 	if (kind == "seen" || kind == "remove") && len(live) == 0 {
 		kind = "add"
 	}
+	capT := c.Cap // the cap in force for the target operation and after the crash
+	if c.Cap2 > 0 && kind == "add" {
+		capT = c.Cap2
+		sys.Store = hx.NewFile(extension.NewHost(), work, capT) // the restart with the new setting
+		sys.Model.Cap = capT
+	}
 	label := kind
-	if kind == "add" && c.Cap > 0 && len(live) >= c.Cap {
+	if kind == "add" && capT > 0 && len(live) >= capT {
 		label = "add-at-cap"
+		if len(live) > capT {
+			label = "add-over-lowered-cap"
+		}
 	}
 	if kind == "remove" && len(live) == 1 {
 		label = "remove-last"
@@ -288,7 +307,7 @@ func run(c Case) *hx.Outcome {
 	nt := 0
 	for si, s := range snaps {
 		where := fmt.Sprintf("target %s on %q, crash at point %d/%d %s %s", label, box, si+1, len(snaps), s.site, s.note)
-		st := hx.NewFile(extension.NewHost(), s.dir, c.Cap)
+		st := hx.NewFile(extension.NewHost(), s.dir, capT)
 		if err := st.VisitMailboxes(func([]storage.Message) bool { return true }); err != nil {
 			o.Failf(pid+":unreadable-after-crash", "%s: VisitMailboxes on the restarted store: %v", where, err)
 			break
